@@ -53,7 +53,7 @@ func VH18a_modes() {
 		side = vt.Listen(sock, "a")
 		p1 = side.Peer("p1")
 	}
-	switch verif.Choice("mode", 6) {
+	switch verif.Choice("mode", 7) {
 	case 0: // receive deadline
 		d := verif.Duration("recv-deadline")
 		verif.Assume(verif.And(d >= 1, d <= time.Hour))
@@ -166,6 +166,37 @@ func VH18a_modes() {
 				verif.Assert(rerr == mangos.ErrNoPeers, lab+"/recv-peer-left-error-kind")
 			}
 			verif.Reach("no-peers-after-leave")
+		}
+	case 6: // fail-no-peers: a sender blocked behind a stalled peer, then that last peer leaves
+		if peers != 0 {
+			verif.Assume(false)
+		}
+		if ep.SetOption(mangos.OptionFailNoPeers, true) != nil {
+			verif.Assume(false)
+		}
+		sock.SetOption(mangos.OptionWriteQLen, 1)
+		side = vt.Listen(sock, "a")
+		p1 = side.Peer("p1")
+		p1.SendMode = vt.SendBlock
+		var blocked *verif.G
+		var berr error
+		for i := 0; i < 4 && blocked == nil; i++ {
+			var e error
+			pe := &e
+			g := verif.Go("send", func() { *pe = ep.SendMsg(newMsg(proto)) })
+			verif.Quiesce()
+			if !g.Done() {
+				blocked = g
+				berrp := pe
+				p1.Drop()
+				verif.Quiesce()
+				verif.Assert(g.Done(), lab+"/send-still-blocked-after-last-peer-left")
+				if g.Done() {
+					berr = *berrp
+					verif.Assert(berr == mangos.ErrNoPeers, lab+"/send-peer-left-error-kind")
+				}
+				verif.Reach("no-peers-blocked-sender")
+			}
 		}
 	case 5: // a Send that completed at once is not failed later by its deadline
 		d := verif.Duration("send-deadline")
